@@ -29,11 +29,11 @@ def region_accumulation(c):
     KEY = z3.Function("KEY", INT, INT)
     TL = z3.Function("TL", INT, SEQ)
     ACC = z3.Function("ACC", INT, INT, SEQ)
-    k_ = z3.Int("k_")
-    p.assume(z3.ForAll([k_], ACC(0, k_) == z3.Empty(SEQ)))
+    k_ = z3.Int("any_key")       # an arbitrary key: a fresh constant stands for "for every key"
+    p.assume(ACC(0, k_) == z3.Empty(SEQ))
 
     def accdef(j):
-        return z3.ForAll([k_], ACC(j + 1, k_) == z3.If(KEY(caps.t[j]) == k_, z3.Concat(ACC(j, k_), TL(caps.t[j])), ACC(j, k_)))
+        return ACC(j + 1, k_) == z3.If(KEY(caps.t[j]) == k_, z3.Concat(ACC(j, k_), TL(caps.t[j])), ACC(j, k_))
     stash = type("Stash", (), {})()
     stash._collection = caps
     reader = c.new(SCCReader, caption_stash=stash)
@@ -63,10 +63,11 @@ def region_accumulation(c):
         S.p.assume(accdef(S.i))
         d = S.local("lines_too_long")
         return [("every_key_holds_all_long_lines_of_its_captions",
-                 z3.ForAll([k_], z3.Select(d.arr, k_) == ACC(S.i, k_)))]
+                 z3.Select(d.arr, k_) == ACC(S.i, k_))]
 
     def havoc_dict(p_, name):
-        return SymDefaultDictOfLists(z3.Const(p_._name("D"), z3.ArraySort(INT, SEQ)))
+        return SymDefaultDictOfLists(z3.Const(p_._name("D"), z3.ArraySort(INT, SEQ)),
+                                     z3.Const(p_._name("Dpresent"), z3.ArraySort(INT, z3.BoolSort())))
     rule = loop_rule("scan.loop", inv, locals_={"lines_too_long": ("custom", havoc_dict), "caption_start": ("skip", None),
                                                "caption_text": ("skip", None), "text_too_long": ("skip", None), "line": ("skip", None)})
     q = "pycaption.scc:SCCReader.read"
@@ -79,7 +80,7 @@ def region_accumulation(c):
         stmt_hooks=[(is_assign_to("caption_start"), h_start), (is_assign_to("caption_text"), h_text),
                     (is_assign_to("text_too_long"), h_long), (is_assign_to("lines_too_long"), h_dict)])
     d = loc["lines_too_long"]
-    c.ensure("no_long_line_is_lost_for_any_key", z3.ForAll([k_], z3.Select(d.arr, k_) == ACC(n, k_)))
+    c.ensure("no_long_line_is_lost_for_any_key", z3.Select(d.arr, k_) == ACC(n, k_))
 
 
 def scan_loop_ordinal():
